@@ -1758,15 +1758,20 @@ func (r *Raft) sendInstallSnapshot(id, address string) {
 
 	// Read a chunk of the snapshot from the file.
 	var buf bytes.Buffer
-	n, err := io.Copy(&buf, follower.snapshot)
-	if err != nil {
+	if _, err := io.Copy(&buf, follower.snapshot); err != nil {
 		if err := follower.snapshot.Close(); err != nil {
 			r.logger.Errorf("failed to close snapshot file: error = %v", err)
 		}
 		r.logger.Fatalf("failed to read snapshot file: error = %v", err)
 	}
 	request.Bytes = buf.Bytes()
-	request.Done = n < snapshotChunkSize
+
+	// The file has been read to its end, whatever its size: this request carries the last
+	// bytes of the snapshot. (Judging by the number of bytes read, a request that reached
+	// the end of a large file was not marked as the last one, and a follower that already
+	// had the snapshot made the leader alternate between the start and the end of the
+	// file forever.)
+	request.Done = true
 
 	r.mu.Unlock()
 	response, err := r.transport.SendInstallSnapshot(address, request)
